@@ -79,6 +79,33 @@ theorem failed_acquire_removes_key {c : Cfg} (h1 : OneObjectPerSession c) {s s' 
     exact ⟨fun hm => ((inv.nodup.mem_erase_iff).mp hm).1 rfl, by simp⟩
   · cases h
 
+/-- … also when the very first etcd request failed (whether or not it had been applied: the
+cleanup `m.m.Unlock` added by fixes/C18-stale-lock-key.patch deletes the key in both cases) … -/
+theorem failed_early_removes_key {c : Cfg} (h1 : OneObjectPerSession c) {s s' : State} (hr : Reachable c s) (t : Nat)
+    (h : step c s (.etcdErrorEarly t) = some s') : c.sess (c.obj t) ∉ s'.queue ∧ s'.pc t = .failing := by
+  have inv := reachable_inv h1 hr
+  simp only [step] at h
+  split at h
+  · cases h
+    exact ⟨fun hm => ((inv.nodup.mem_erase_iff).mp hm).1 rfl, by simp⟩
+  · cases h
+
+/-- What the **unrepaired** `mutex.Lock` does when the key-creating request was applied but its
+response was lost: it returns the error and releases the local mutex *without* deleting the key. -/
+def oldLostResponse (c : Cfg) (s : State) (t : Nat) : State :=
+  { s with pc := upd s.pc t .idle, held := upd s.held (c.obj t) false }
+
+/-- Witness of the defect in the unrepaired code (reproduced on the real code by the mutex
+harness, see fixes/C18-stale-lock-key.md): member 0's goroutine 0 enqueues, the response is
+lost, `Lock` fails; nobody is inside `Lock`/`Unlock` any more, yet the key is still queued and
+member 1 can never be granted the lock — until member 0 happens to lock again. -/
+theorem old_code_leaves_stale_key :
+    let c : Cfg := { obj := fun t => t, sess := fun o => o }
+    ∃ s, run c init [.localLock 0, .etcdEnqueue 0] = some s ∧
+      (∀ t, t < 4 → (oldLostResponse c s 0).pc t = .idle) ∧ (oldLostResponse c s 0).queue = [0] ∧
+      run c (oldLostResponse c s 0) [.localLock 1, .etcdEnqueue 1, .etcdGranted 1] = none := by
+  refine ⟨_, rfl, ?_, ?_, ?_⟩ <;> decide
+
 /-- … (2) and the deferred unlock releases the process-local mutex. -/
 theorem failed_acquire_unlocks_local {c : Cfg} {s s' : State} (t : Nat)
     (h : step c s (.localUnlockFail t) = some s') : s'.held (c.obj t) = false ∧ s'.pc t = .idle := by
@@ -129,6 +156,7 @@ def proj : List ClusterMutex.Act → List TEv
   | .etcdGranted t :: r => .acquired t :: proj r
   | .etcdUnlock t :: r => .releasing t :: proj r
   | .etcdTimeout t :: r => .failed t :: proj r
+  | .etcdErrorEarly t :: r => .failed t :: proj r
   | .localLock _ :: r => proj r
   | .etcdEnqueue _ :: r => proj r
   | .localUnlockFail _ :: r => proj r
@@ -210,6 +238,14 @@ theorem model_traces_exclusive {c : Cfg} (h1 : OneObjectPerSession c) : ∀ (as 
             intro hc; exact hx (inv_exclusive h1 inv x t hc g)
         · cases hs
       | etcdTimeout t =>
+        simp only [step] at hs
+        split at hs
+        · rename_i g
+          cases hs
+          simp only [proj, exclusiveTrace]
+          exact ih h (holder_keep hh t .failing (by simp [g]) (by simp))
+        · cases hs
+      | etcdErrorEarly t =>
         simp only [step] at hs
         split at hs
         · rename_i g
@@ -316,14 +352,17 @@ theorem final_store_is_fold (e : Etcd) (rs : List Req) :
 /-! ## Facts regenerated from the source on every run -/
 
 /-- `mutex.Lock`: local mutex first, then the etcd lock under a timeout context; the local mutex
-is released in the deferred closure exactly when the etcd lock failed. `mutex.Unlock`: etcd
+is released in the deferred closure exactly when the etcd lock failed, after the cleanup
+`m.m.Unlock` that follows a failed `m.m.Lock` (`lockCleansUpOnError`; false on the unrepaired
+code, where a key whose creation was not reported stays behind). `mutex.Unlock`: etcd
 unlock, then (deferred) the local mutex. `cluster.Mutex` builds the etcd mutex on the member's
 session, and `getSession` creates at most one session per member. -/
 theorem mutex_shape :
     Gen.FactsC18.extractionFailed = false ∧
-    Gen.FactsC18.mutexLockCalls = ["m.lock.Lock", "deferred:m.lock.Unlock", "context.WithTimeout", "context.Background", "defer cancel", "m.m.Lock"] ∧
+    Gen.FactsC18.mutexLockCalls = ["m.lock.Lock", "deferred:m.lock.Unlock", "m.m.Lock", "m.m.Unlock"] ∧
     Gen.FactsC18.lockUnlocksLocalOnError = true ∧
-    Gen.FactsC18.mutexUnlockCalls = ["context.WithTimeout", "context.Background", "defer cancel", "defer m.lock.Unlock", "m.m.Unlock"] ∧
+    Gen.FactsC18.lockCleansUpOnError = true ∧
+    Gen.FactsC18.mutexUnlockCalls = ["defer m.lock.Unlock", "m.m.Unlock"] ∧
     Gen.FactsC18.clusterMutexCalls = ["c.getSession", "concurrency.NewMutex"] ∧
     Gen.FactsC18.sessionCreations = 1 ∧ Gen.FactsC18.sessionCached = true := by decide
 
